@@ -483,6 +483,7 @@ func reachH(starts []Point, bars []Barrier, stopAt func(ssa.Instruction) bool, h
 				switch t := in.(type) {
 				case *ssa.If:
 					cond := condOf(t)
+					var condAlt *Expr // the phi as a whole (identity patterns) next to its path-resolved operand
 					// when the incoming edge is known and the condition is (a negation
 					// of) a phi of this block, match barriers against the operand that
 					// actually flows in on this path
@@ -498,6 +499,7 @@ func reachH(starts []Point, bars []Barrier, stopAt func(ssa.Instruction) bool, h
 								e = &Expr{K: EUn, Op: token.NOT, X: e}
 								v = u.X
 							}
+							condAlt = cond
 							cond = e
 						}
 					}
@@ -524,6 +526,12 @@ func reachH(starts []Point, bars []Barrier, stopAt func(ssa.Instruction) bool, h
 								if m, which := b.Edge(cond); m && which == k {
 									blocked = true
 									break
+								}
+								if condAlt != nil {
+									if m, which := b.Edge(condAlt); m && which == k {
+										blocked = true
+										break
+									}
 								}
 							}
 						}
